@@ -1,5 +1,6 @@
 import UtilModel.RefCount.Props
 import UtilModel.RefCount.ObsOnce
+import UtilModel.RefCount.ObsHeld
 open UtilModel UtilModel.RefCount
 #print axioms UtilModel.accepts_sound
 #print axioms UtilModel.accepted_satisfies
@@ -20,3 +21,6 @@ open UtilModel UtilModel.RefCount
 #print axioms RefCount.idx_step
 #print axioms RefCount.relIn_step
 #print axioms RefCount.rel_once_obs
+#print axioms RefCount.th_frame
+#print axioms RefCount.items_frame
+#print axioms RefCount.rel_held_obs
